@@ -433,6 +433,12 @@ def dict_structural(doc):
             v3 = par3.pop(path[-1])
             par3['NoSuchMember'] = v3
             yield 'rename', pstr, d3
+            # names made of characters an output document may not be able to carry (the name comes back in the fault text)
+            for nm in ('m\x01', 'm\x00x', '\x1b[0m', '\ud800', 'm\ufffe', 'a' * 300, '<m>&amp;', ''):
+                d9 = copy.deepcopy(doc)
+                par9 = get(d9, path[:-1])
+                par9[nm] = par9.pop(path[-1])
+                yield 'rename-hostile-name', '%s>%r' % (pstr, nm[:6]), d9
             d4 = copy.deepcopy(doc)
             get(d4, path[:-1])['junk'] = 'x'
             yield 'add-key', pstr, d4
